@@ -263,7 +263,8 @@ def check(cx):
 
     # ---------------------------------------------------------------- R20.4
     r4 = cx.rule('R20.4', 'CLI override census', floor=7, kind='table-agreement')
-    assigns = [e for e in w.events if e.kind == 'assign' and not e.data.get('init') and root_of(e.data['lhs']) == root_of(cfg)]
+    # (`field |= option` is the or-override of a switch: an assignment like `field = field || option`)
+    assigns = [e for e in w.events if e.kind in ('assign', 'assignop') and not e.data.get('init') and root_of(e.data['lhs']) == root_of(cfg)]
     for cf, target in CLI_OVERRIDES.items():
         r4.instance('--%s -> config.%s' % (cf, target))
         hit = [e for e in assigns if path_of(e.data['lhs'])[-1:] == [target] and mentions(e.data['rhs'], field(CLI, cf))]
